@@ -2,6 +2,15 @@ module verifharness
 
 go 1.23.0
 
-require github.com/maruel/panicparse/v2 v2.0.0
+require (
+	github.com/maruel/panicparse/v2 v2.0.0
+	github.com/mgutz/ansi v0.0.0-20200706080929-d51e80ef957d
+)
+
+require (
+	github.com/mattn/go-colorable v0.1.14 // indirect
+	github.com/mattn/go-isatty v0.0.20 // indirect
+	golang.org/x/sys v0.31.0 // indirect
+)
 
 replace github.com/maruel/panicparse/v2 => /repo
